@@ -277,3 +277,149 @@ Print Assumptions C02_network_liveness.
 Print Assumptions C02_network_liveness_publishes.
 Print Assumptions C02_network_publish_event_is_a_broadcast.
 Print Assumptions C02_observer_emits_its_observation.
+
+(* ================================================================================================================================
+   Extension X10 — closing two gaps of the network-level statements.
+   (A) LIVENESS OVER WINDOWS THAT CONTAIN CLEANUP TICKS (proofs/ClosureProofs3.v).  The window above excludes guardian-set changes
+   and cleanup ticks at node i.  Here only set changes are excluded ([steady] / [steady_nop]); cleanup ticks, clock steps and retries
+   may occur at node i, as long as no tick of the window DELETES node i's entry of the message ([tick_keeps h st]: the per-entry
+   function of C14 does not answer CDelete for the entry of h in the state in which the tick is taken).  A tick that settles or
+   retries the entry (re-sends the observation, posts a re-observation request) changes neither its recorded signatures nor the
+   node's own VAA nor the set it aggregates under.  [C02_entry_survives_tick] gives C14's schedule conditions under which a tick
+   keeps an entry.
+   (B) AGREEMENT AS ONE THEOREM OVER TWO PUBLICATION LOGS (model/PubLog.v, proofs/ClosureProofs5.v): [pubs_of i n xs] = the
+   SignedVAAWithQuorum byte strings node i broadcast along the network history xs. *)
+From WH Require Import model.PubLog proofs.ClosureProofs3 proofs.ClosureProofs5 proofs.ClosureProofsEx0 proofs.ClosureProofsExB.
+
+(* C14's schedule: a completed entry younger than an hour, or a pending entry for which no quorum VAA is stored (or that is at most
+   30 s old) and that holds the node's own observation with retry budget left or is younger than five minutes, is not deleted *)
+Theorem C02_entry_survives_tick : forall now indb ck e,
+  (submitted e = true -> now - first_seen e < proc_submitted_expiry_ns) ->
+  (submitted e = false ->
+     (indb = false \/ now - first_seen e <= proc_settlement_ns) /\
+     ((our_msg e <> None /\ retries e < proc_own_retry_budget) \/
+      (our_msg e = None /\ now - first_seen e < proc_retry_after_ns /\ retries e < proc_nil_retry_budget))) ->
+  cleanup_entry now indb ck e <> CDelete.
+Proof. exact entry_survives_tick. Qed.
+
+(* what a tick that keeps an entry leaves alone *)
+Theorem C02_kept_entry_keeps_its_signatures : forall now indb ck e e' o, cleanup_entry now indb ck e = CKeep e' o ->
+  gs_snap e' = gs_snap e /\ our_vaa e' = our_vaa e /\ esigs e' = esigs e /\ submitted e' = submitted e.
+Proof. exact keep_same. Qed.
+
+(* one node: a window of its history without set change whose cleanup ticks keep the entry of h; the entry is published at the end of
+   the window and some step of the window broadcast it *)
+Theorem C02_window_liveness_with_cleanup_ticks :
+  forall recover keccak sign own gov_chain gov_addr,
+    (forall b, length (keccak b) = 32%nat) -> length own = 20%nat ->
+    (forall d, length d = 32%nat -> rec recover d (sign d) = Some own) ->
+  forall G h, In own (keys G) ->
+  forall ops0 ops (signers : list addr) m,
+    Forall op_wf ops0 -> Forall op_wf ops -> forallb steady ops = true ->
+    let stp := fun st o => fst (step recover keccak sign own gov_chain gov_addr st o) in
+    let st0 := fst (run recover keccak sign own gov_chain gov_addr init ops0) in
+    let st := fst (run recover keccak sign own gov_chain gov_addr st0 ops) in
+    always stp (fun s o => o = Cleanup -> tick_keeps h s) st0 ops ->
+    cur st0 = Some G -> alookup h (agg st0) = None -> gs_wf G ->
+    dg keccak (vaa_of_message 0 m) = h ->
+    happens stp (ev_msg recover keccak sign own gov_chain gov_addr m) st0 ops ->
+    NoDup signers -> incl signers (keys G) -> go_quorum (Z.of_nat (length (keys G))) <= Z.of_nat (length signers) ->
+    (forall a, In a signers -> a <> own -> happens stp (ev_obs recover h a) st0 ops) ->
+    (forall o, In o (loopq st) -> o_hash o <> h) ->
+    (exists e, alookup h (agg st) = Some e /\ our_vaa e <> None /\ gs_snap e = Some G /\ submitted e = true) /\
+    happens stp (fun s o => bcast_for recover keccak sign own gov_chain gov_addr h s o = true) st0 ops.
+Proof. exact window_liveness_ticks. Qed.
+
+(* the network: as C02_network_liveness / C02_network_liveness_publishes, over windows that contain cleanup ticks at node i *)
+Theorem C02_network_liveness_with_cleanup_ticks :
+  forall recover keccak gov_chain gov_addr owns signs, (forall b, length (keccak b) = 32%nat) ->
+  forall N xs0 xs i G m (S : list nat), (i < N)%nat -> Forall nop_wf xs0 -> Forall nop_wf xs ->
+    let stp := fun n x => fst (nstep recover keccak gov_chain gov_addr owns signs n x) in
+    let n0 := fst (nrun recover keccak gov_chain gov_addr owns signs (ninit N) xs0) in
+    let n1 := fst (nrun recover keccak gov_chain gov_addr owns signs n0 xs) in
+    let h := dg keccak (vaa_of_message 0 m) in
+    (forall st0, nth_error (nodes n0) i = Some st0 -> cur st0 = Some G /\ alookup h (agg st0) = None) -> gs_wf G ->
+    (forall x, In x xs -> target x = i -> steady_nop x = true) ->
+    always stp (fun n x => x = NEnv i ECleanup -> forall st, nth_error (nodes n) i = Some st -> tick_keeps h st) n0 xs ->
+    NoDup (map owns S) -> (forall j, In j S -> honest_member recover owns signs G j) ->
+    go_quorum (Z.of_nat (length (keys G))) <= Z.of_nat (length S) -> In i S ->
+    happens stp (ev_observes recover keccak gov_chain gov_addr owns signs i m) n0 xs ->
+    (forall j, In j S -> j <> i -> happens stp (ev_delivered owns signs i j h) n0 xs) ->
+    (forall st, nth_error (nodes n1) i = Some st -> forall o, In o (loopq st) -> o_hash o <> h) ->
+    (exists st e, nth_error (nodes n1) i = Some st /\ alookup h (agg st) = Some e /\
+                  our_vaa e <> None /\ gs_snap e = Some G /\ submitted e = true) /\
+    happens stp (ev_publishes recover keccak gov_chain gov_addr owns signs i h) n0 xs.
+Proof. exact net_liveness_ticks. Qed.
+
+(* non-vacuity: two guardians (quorum 2); the window at node 0 holds three cleanup ticks - one that does nothing, one that SETTLES the
+   entry (45 s), one that RETRIES it (350 s: a re-observation request and the re-sent observation go out) -; every premise holds and
+   the conclusion is computed: published at the loopback, the entry settled and retried once *)
+Example C02_liveness_with_cleanup_ticks_premises_satisfiable :
+  let stp := fun n x => fst (tx_nstep n x) in
+  let n0 := fst (tx_nrun (ninit 2) tx_pre) in
+  let n1 := fst (tx_nrun n0 tx_win) in
+  let h := dg qx_keccak (vaa_of_message 0 qx_msg) in
+  Forall nop_wf tx_pre /\ Forall nop_wf tx_win /\
+  (forall st0, nth_error (nodes n0) 0 = Some st0 -> cur st0 = Some qx_G /\ alookup h (agg st0) = None) /\ gs_wf qx_G /\
+  (forall x, In x tx_win -> target x = 0%nat -> steady_nop x = true) /\
+  net_ticks_keep qx_recover qx_keccak 1 (repeat x00 32) qx_owns qx_signs 0 h n0 tx_win /\
+  NoDup (map qx_owns [0; 1]%nat) /\ (forall j, In j [0; 1]%nat -> honest_member qx_recover qx_owns qx_signs qx_G j) /\
+  go_quorum (Z.of_nat (length (keys qx_G))) <= Z.of_nat (length [0; 1]%nat) /\
+  happens stp (ev_observes qx_recover qx_keccak 1 (repeat x00 32) qx_owns qx_signs 0 qx_msg) n0 tx_win /\
+  happens stp (ev_delivered qx_owns qx_signs 0 1 h) n0 tx_win /\
+  (forall st, nth_error (nodes n1) 0 = Some st -> forall o, In o (loopq st) -> o_hash o <> h) /\
+  map (fun outs => length outs) (snd (tx_nrun n0 tx_win)) = [0; 2; 2; 0; 0; 0; 0; 0; 2; 2]%nat /\
+  (exists st e, nth_error (nodes n1) 0 = Some st /\ alookup h (agg st) = Some e /\ submitted e = true /\ settled e = true /\ retries e = 1).
+Proof. exact ex_liveness_with_ticks. Qed.
+
+(* ---- (B) agreement.  What every node's publication log holds, along every network history: wire forms of VAAs with a valid quorum
+   of a set that node learned from chain *)
+Theorem C02_publication_logs_hold_quorum_valid_vaas :
+  forall recover keccak gov_chain gov_addr owns signs N xs i b, Forall nop_wf xs ->
+  In b (pubs_of recover keccak gov_chain gov_addr owns signs i (ninit N) xs) ->
+  exists v g, b = marshal v /\ qvalid recover keccak v (keys g) /\ In g (net_learned i xs).
+Proof. exact pubs_are_quorum_valid. Qed.
+
+(* THE HYPOTHESIS ABOUT THE ORACLE: [one_digest_per_id recover keccak a] = whenever two VAAs with the same identifier (emitter chain,
+   emitter address, target chain, sequence) both carry a signature that [recover]s to a over their own digests, the digests are equal
+   ("member a signs at most one digest per message id": honesty of the signer and unforgeability, as a property of the oracle).
+   AGREEMENT: for every N and every network history, what node i and node j ever broadcast are quorum-valid VAAs of sets they learned;
+   if two of them name the same message id, were assembled under the same key set, and at most a third of that set is faulty (every
+   other member satisfies the hypothesis), they have the same digest *)
+Theorem C02_network_agreement_over_publication_logs :
+  forall recover keccak gov_chain gov_addr owns signs N xs i j b1 b2, Forall nop_wf xs ->
+  In b1 (pubs_of recover keccak gov_chain gov_addr owns signs i (ninit N) xs) ->
+  In b2 (pubs_of recover keccak gov_chain gov_addr owns signs j (ninit N) xs) ->
+  exists v1 v2 g1 g2, b1 = marshal v1 /\ b2 = marshal v2 /\ qvalid recover keccak v1 (keys g1) /\ qvalid recover keccak v2 (keys g2) /\
+    In g1 (net_learned i xs) /\ In g2 (net_learned j xs) /\
+    forall faulty : list addr, id_of v1 = id_of v2 -> keys g1 = keys g2 ->
+      3 * Z.of_nat (length faulty) <= Z.of_nat (length (keys g1)) ->
+      (forall a, In a (keys g1) -> ~ In a faulty -> one_digest_per_id recover keccak a) ->
+      dg keccak v1 = dg keccak v2.
+Proof. exact net_agreement. Qed.
+
+(* WITHOUT the hypothesis agreement fails - computed witness (permissive recovery oracle, a hash that tells the two bodies apart): a
+   set of four; members 1 and 2 (more than a third) have valid signatures over two different digests of ONE message id; honest nodes
+   0 and 3 observed different contents for that id; the real handlers make each of them publish a quorum VAA: same id, different
+   digests - and [one_digest_per_id] fails exactly for members 1 and 2 *)
+Example C02_equivocation_by_more_than_a_third_breaks_agreement :
+  Forall nop_wf wx_xs /\
+  wx_pubs 0%nat (ninit 4) wx_xs = [marshal wx_v1] /\ wx_pubs 3%nat (ninit 4) wx_xs = [marshal wx_v2] /\
+  id_of wx_v1 = id_of wx_v2 /\ dg wx_keccak wx_v1 <> dg wx_keccak wx_v2 /\
+  signed_by qx_recover wx_keccak wx_v1 (qx_owns 1) /\ signed_by qx_recover wx_keccak wx_v2 (qx_owns 1) /\
+  signed_by qx_recover wx_keccak wx_v1 (qx_owns 2) /\ signed_by qx_recover wx_keccak wx_v2 (qx_owns 2) /\
+  ~ one_digest_per_id qx_recover wx_keccak (qx_owns 1) /\ ~ one_digest_per_id qx_recover wx_keccak (qx_owns 2) /\
+  3 * Z.of_nat (length [qx_owns 1; qx_owns 2]) > Z.of_nat (length (keys wx_G)).
+Proof. exact ex_equivocation. Qed.
+
+(* ... and the hypothesis is satisfiable by a non-trivial oracle: member hx_a has valid signatures over one digest only, every other
+   address over anything *)
+Example C02_agreement_hypothesis_satisfiable : forall keccak, one_digest_per_id hx_recover keccak hx_a.
+Proof. exact ex_one_digest_per_id. Qed.
+
+Print Assumptions C02_entry_survives_tick.
+Print Assumptions C02_kept_entry_keeps_its_signatures.
+Print Assumptions C02_window_liveness_with_cleanup_ticks.
+Print Assumptions C02_network_liveness_with_cleanup_ticks.
+Print Assumptions C02_publication_logs_hold_quorum_valid_vaas.
+Print Assumptions C02_network_agreement_over_publication_logs.
